@@ -114,10 +114,10 @@ func (k *c02Kern) install(rules []bpfMatchSet, compiled []compiledRoutingMatch, 
 	before := globalNextLpmIndex.Load()
 	start, err := reserveLpmRingSlots(lpmCount)
 	if err != nil {
-		k.st.Emit(fmt.Sprintf("reserve %d", lpmCount), "err")
+		k.stats.Inc("ring.reserve_error")
 		return false
 	}
-	k.st.Emit(fmt.Sprintf("reserve %d", lpmCount), fmt.Sprintf("start=%d", start))
+	k.st.Emit(fmt.Sprintf("reserve %d %d", lpmCount, start), "ok")
 	if globalNextLpmIndex.Load() < before {
 		k.ringWraps++
 		k.stats.Inc("ring.wraps")
@@ -386,9 +386,9 @@ func TestVerifC02(t *testing.T) {
 	globalNextLpmIndex.Store(ring0)
 	k.st.Emit(fmt.Sprintf("ringset %d", ring0), "ok")
 
-	nProg, nPkt, maxRules := 120, 24, 12
+	nProg, nPkt, maxRules := 300, 30, 12
 	if VThorough() {
-		nProg, nPkt, maxRules = 900, 40, 40
+		nProg, nPkt, maxRules = 2500, 50, 40
 	}
 	for pi := 0; pi < nProg; pi++ {
 		mr := maxRules
